@@ -255,7 +255,7 @@ add('c11-fold-dim', SP, "    fold_dim1 = len(freq_edges) + 1", "    fold_dim1 = 
 add('c11-reshape-swapped', SP, "        holo = holo.sum(axis=0)\n        holo = holo.reshape(fold_dim2, fold_dim1)", "        holo = holo.sum(axis=0)\n        holo = holo.reshape(fold_dim1, fold_dim2)", 'breaking', ['C11'], 'C11.R1')
 add('c11-trim-one-margin', SP, "        holo = np.array(holo[1:-1, 1:-1])  # don't return a matrix", "        holo = np.array(holo[1:, 1:-1])  # don't return a matrix", 'breaking', ['C11'], 'C11.R1')
 add('c11-mean-is-sum', SP, "        holo = holo.mean(axis=0)\n        holo = holo.reshape(fold_dim2, fold_dim1)", "        holo = holo.sum(axis=0)\n        holo = holo.reshape(fold_dim2, fold_dim1)", 'breaking', ['C11'], 'C11.R2')
-add('c11-sum-axis1', SP, "        holo = holo.sum(axis=0)\n        holo = holo.reshape(fold_dim2, fold_dim1)", "        holo = holo.sum(axis=1)\n        holo = holo.reshape(fold_dim2, fold_dim1)", 'breaking', ['C11'], 'C11.R2')
+add('c11-sum-axis1', SP, "        holo = holo.sum(axis=0)\n        holo = holo.reshape(fold_dim2, fold_dim1)", "        holo = holo.sum(axis=1)\n        holo = holo.reshape(fold_dim2, fold_dim1)", 'breaking', ['C11'], 'C11.R')   # now decided first by the shape rule (R1)
 add('c11-energy-lost', SP, "    if mode == 'energy':\n        inam2 = inam2**2", "    if mode == 'energy':\n        inam2 = np.abs(inam2)", 'breaking', ['C11'], 'C11.R3')
 add('c11-dimcheck-dropped', SP, "    ensure_equal_dims((infr, infr2, inam2), ('infr', 'infr2', 'inam2'), 'holospectrum', dim=1)\n", "", 'breaking', ['C11'], 'C11.R3')
 add('c11-edges-swapped', SP, "    IA_inds = np.digitize(infr2, freq_edges2)\n    infr_inds = np.digitize(infr, freq_edges)", "    IA_inds = np.digitize(infr2, freq_edges)\n    infr_inds = np.digitize(infr, freq_edges2)", 'breaking', ['C11'], 'C11')
@@ -626,3 +626,48 @@ add('m-c01-thresh-mean', S, "        if np.abs(next_imf).sum() < sift_thresh:\n 
 add('m-c04-log-threshold-benign', S, "            if niters == 3*max_iters//4:", "            if niters == 3*max_iters/4:", 'benign', ['C04'])
 add('m-c08-ceemd-last-column-benign', S, "    noise = noise - np.array([r[:, 0] for r in res]).T\n\n    # One IMF has been extracted so far", "    noise = noise - np.array([r[:, -1] for r in res]).T\n\n    # One IMF has been extracted so far",
     'benign', ['C08'])
+SP = 'emd/spectra.py'
+add('m-c09-hilbert-axis', SP, "        analytic_signal = signal.hilbert(imf, axis=0)\n\n        # Estimate instantaneous amplitudes directly", "        analytic_signal = signal.hilbert(imf)\n\n        # Estimate instantaneous amplitudes directly",
+    'breaking', ['C09'], 'C09.R6')
+add('m-c09-hilbert-amp-real', SP, "        iamp = np.abs(analytic_signal)\n", "        iamp = np.real(analytic_signal)\n", 'breaking', ['C09'], 'C09.R6')
+add('m-c09-nht-unlift-negated', SP, "                                                        mode='upper')\n        if orig_dim == 2:\n            iamp = iamp[:, :, 0]\n\n    elif method == 'ctrl':",
+    "                                                        mode='upper')\n        if orig_dim != 2:\n            iamp = iamp[:, :, 0]\n\n    elif method == 'ctrl':", 'breaking', ['C09'], 'C09.R6')
+add('m-c09-smoothing-dropped', SP, "            analytic_signal, smoothing=smooth_phase, ret_phase='unwrapped')", "            analytic_signal, ret_phase='unwrapped')",
+    'breaking', ['C09'], 'C09.R6')
+add('m-c09-unwrap-axis', SP, "    iphase = np.unwrap(np.angle(complex_signal), axis=0)\n", "    iphase = np.unwrap(np.angle(complex_signal))\n", 'breaking', ['C09'], 'C09.R7')
+add('m-c09-ascending-offset', SP, "    if phase_jump == 'ascending':\n        iphase = iphase + np.pi / 2", "    if phase_jump == 'ascending':\n        iphase = iphase - np.pi / 2",
+    'breaking', ['C09'], 'C09.R7')
+add('m-c09-medfilt-even', SP, "signal.medfilt(iphase[:, ii, jj], 5)", "signal.medfilt(iphase[:, ii, jj], 6)", 'breaking', ['C09'], 'C09.R7')
+add('m-c09-unlift-minus-one-benign', SP, "    if orig_dim == 2:\n        iphase = iphase[:, :, 0]\n\n    # Set phase jump", "    if orig_dim == 2:\n        iphase = iphase[:, :, -1]\n\n    # Set phase jump",
+    'benign', ['C09'])
+add('m-c09-normalise-lift-negated', 'emd/utils.py', "    orig_dim = X.ndim\n    if X.ndim == 2:\n        X = X[:, :, None]", "    orig_dim = X.ndim\n    if X.ndim != 2:\n        X = X[:, :, None]",
+    'breaking', ['C09'], 'C09.R3')
+add('m-c10-digitize-swapped', SP, "    yinds = np.digitize(infr, freq_edges) - 1", "    yinds = np.digitize(freq_edges, infr) - 1", 'breaking', ['C10'], 'C10.R1')
+add('m-c10-filter-on-time', SP, "    goods = np.all(np.c_[coo_data[1][0] < len(freq_edges) - 1, (coo_data[1][0] >= 0)], axis=1)",
+    "    goods = np.all(np.c_[coo_data[1][1] < len(freq_edges) - 1, (coo_data[1][0] >= 0)], axis=1)", 'breaking', ['C10'], 'C10.R1')
+add('m-c10-filter-axis-dropped', SP, "    goods = np.all(np.c_[coo_data[1][0] < len(freq_edges) - 1, (coo_data[1][0] >= 0)], axis=1)",
+    "    goods = np.all(np.c_[coo_data[1][0] < len(freq_edges) - 1, (coo_data[1][0] >= 0)])", 'breaking', ['C10'], 'C10.R1')
+add('m-c10-coords-swapped', SP, "    coo_data = (coo_data[0][goods], (coo_data[1][0][goods], coo_data[1][1][goods]))",
+    "    coo_data = (coo_data[0][goods], (coo_data[1][1][goods], coo_data[1][0][goods]))", 'breaking', ['C10'], 'C10.R1')
+add('m-c10-time-tile-dims', SP, "    xinds = np.tile(np.arange(yinds.shape[0]), (yinds.shape[1], 1)).T", "    xinds = np.tile(np.arange(yinds.shape[0]), (yinds.shape[0], 1)).T",
+    'breaking', ['C10'], 'C10.R1')
+add('m-c10-1d-nanmean', SP, "                specs[ii - 1, jj] = np.nansum(inam[finds[:, jj] == ii, jj])", "                specs[ii - 1, jj] = np.nanmean(inam[finds[:, jj] == ii, jj])",
+    'breaking', ['C10'], 'C10.R3')
+add('m-c10-1d-outside-interior-edge', SP, "    outside_inds = (infr < freq_edges[0]) + (infr > freq_edges[-1])", "    outside_inds = (infr < freq_edges[1]) + (infr > freq_edges[-1])",
+    'breaking', ['C10'], 'C10.R1')
+add('m-c10-1d-bool-subtract', SP, "    outside_inds = (infr < freq_edges[0]) + (infr > freq_edges[-1])", "    outside_inds = (infr < freq_edges[0]) - (infr > freq_edges[-1])",
+    'breaking', ['C10'], 'C10.R1')
+add('m-c10-1d-or-benign', SP, "    outside_inds = (infr < freq_edges[0]) + (infr > freq_edges[-1])", "    outside_inds = (infr < freq_edges[0]) | (infr > freq_edges[-1])",
+    'benign', ['C10'])
+add('m-c10-1d-alloc-rows', SP, "    specs = np.zeros((len(freq_edges) - 1, infr.shape[1]))", "    specs = np.zeros((len(freq_edges) + 1, infr.shape[1]))", 'breaking', ['C10'], 'C10.R1')
+add('m-c10-1d-no-nan-step-benign', SP, "    infr[outside_inds] = np.nan\n", "    pass\n", 'benign', ['C10'])
+add('m-c10-bins-linear-log', SP, "    elif scale == 'linear':\n        edges = np.linspace(data_min, data_max, nbins + 1)", "    elif scale == 'linear':\n        edges = np.exp(np.linspace(np.log(data_min), np.log(data_max), nbins + 1))",
+    'breaking', ['C10'], 'C10.R4')
+add('m-c11-time-arange-axis', SP, "    T_inds = np.arange(infr.shape[0])[:, None, None]", "    T_inds = np.arange(infr.shape[1])[:, None, None]", 'breaking', ['C11'], 'C11.R1')
+add('m-c11-broadcast-swapped', SP, "    T_inds = np.broadcast_to(T_inds, new_shape)", "    T_inds = np.broadcast_to(new_shape, T_inds)", 'breaking', ['C11'], 'C11.R1')
+add('m-c11-new-shape', SP, "    new_shape = (infr_inds.shape[0], infr_inds.shape[1], infr2.shape[2])", "    new_shape = (infr_inds.shape[0], infr_inds.shape[1], infr2.shape[1])",
+    'breaking', ['C11'], 'C11.R1')
+add('m-c11-no-broadcast', SP, "    infr_inds = np.broadcast_to(infr_inds[:, :, None], new_shape)\n", "    pass\n", 'breaking', ['C11'], 'C11.R1')
+add('m-c11-unfold-time-dim', SP, "        holo = holo.toarray().reshape(new_shape[0], fold_dim2, fold_dim1)", "        holo = holo.toarray().reshape(new_shape[1], fold_dim2, fold_dim1)",
+    'breaking', ['C11'], 'C11.R1')
+add('m-c11-fold-true-division', SP, "    infr_inds = infr_inds + IA_inds * fold_dim1", "    infr_inds = infr_inds + IA_inds / fold_dim1", 'breaking', ['C11'], 'C11.R1')
